@@ -579,3 +579,63 @@ pub(crate) mod test {
         assert_eq!(0, l.estimate_hashed_key(3));
     }
 }
+
+// ---------------------------------------------------------------------------------------------
+// verification hooks (feature `verif-hooks`): raw state access. No effect when off.
+#[cfg(feature = "verif-hooks")]
+#[doc(hidden)]
+impl<K, KH> TinyLFU<K, KH> {
+    /// Assembles an estimator from raw words: four counter rows (two 4-bit counters per byte),
+    /// the sketch mask and seeds (seeds are ignored by the no_std sketch), the doorkeeper bitset
+    /// with its size exponent / probe count / insertion counter, and the window state.
+    #[allow(clippy::too_many_arguments)]
+    pub fn verif_from_raw(
+        rows: [alloc::vec::Vec<u8>; 4],
+        mask: u64,
+        seeds: [u64; 4],
+        bitset: alloc::vec::Vec<u64>,
+        size_exp: u64,
+        set_locs: u64,
+        elem_num: u64,
+        samples: usize,
+        w: usize,
+        kh: KH,
+    ) -> Self {
+        Self {
+            ctr: CountMinSketch::verif_from_raw(rows, mask, seeds),
+            doorkeeper: Bloom::verif_from_raw(bitset, size_exp, set_locs, elem_num),
+            samples,
+            w,
+            kh,
+            marker: Default::default(),
+        }
+    }
+    /// Accesses since the last reset.
+    pub fn verif_w(&self) -> usize {
+        self.w
+    }
+    /// Sample size.
+    pub fn verif_samples(&self) -> usize {
+        self.samples
+    }
+    /// Bytes of counter row `i`.
+    pub fn verif_row(&self, i: usize) -> &[u8] {
+        self.ctr.verif_row(i)
+    }
+    /// Sketch mask.
+    pub fn verif_mask(&self) -> u64 {
+        self.ctr.verif_mask()
+    }
+    /// Sketch seeds (zeros for the no_std sketch).
+    pub fn verif_seeds(&self) -> [u64; 4] {
+        self.ctr.verif_seeds()
+    }
+    /// Doorkeeper words.
+    pub fn verif_bits(&self) -> &[u64] {
+        self.doorkeeper.verif_bits()
+    }
+    /// Doorkeeper (size_exp, set_locs).
+    pub fn verif_bloom_params(&self) -> (u64, u64) {
+        self.doorkeeper.verif_params()
+    }
+}
